@@ -262,3 +262,46 @@ func VerifRegExp() {
 	vAssert(tt == SemicolonToken, "token-after-regexp")
 	vReach("regexp")
 }
+
+// VerifStringEsc: a string literal with one backslash followed by symbolic bytes: a
+// LineTerminatorSequence after the backslash (LF, CR, CR LF) is a line continuation, any
+// other character is escaped; the literal ends at the first unescaped matching quote.
+func VerifStringEsc() {
+	n := vRange("n", 1, vParam("N", 3))
+	tail := vBytes("b", n)
+	for i := range tail {
+		c := tail[i]
+		vAssume(c == '\n' || c == '\r' || c == '"' || c == '\\' || c == 'a' || c == '\'')
+	}
+	src := append(append([]byte("\"a\\"), tail...), '"', ';')
+	// reference scan
+	i := 2 // at the backslash
+	end := -1
+	for i < len(src) {
+		c := src[i]
+		if c == '\\' {
+			if src[i+1] == '\r' && i+2 < len(src) && src[i+2] == '\n' {
+				i += 3
+			} else {
+				i += 2
+			}
+			continue
+		}
+		if c == '"' {
+			end = i + 1
+			break
+		}
+		if c == '\n' || c == '\r' {
+			break
+		}
+		i++
+	}
+	tt, d, _ := vnLex1(src)
+	if end > 0 && end <= len(src) {
+		vAssert(tt == StringToken && len(d) == end, "string-with-escape")
+		vReach("string-esc")
+	} else {
+		vAssert(tt == ErrorToken, "unterminated-string-accepted")
+		vReach("string-esc-error")
+	}
+}
